@@ -46,10 +46,6 @@ Fixpoint unpack (f : list fitem) (d : list N) : list fval :=
 Definition unpack_from (f : list fitem) (d : list N) (off : nat) : res (list fval) :=
   if (length d <? off + calcsize f)%nat then Err 2 else Ok (unpack f (skipn off d)).
 
-(* generated format item -> fitem; symbolic widths through env *)
-Definition fitem_of (env : N -> nat) (p : N * N) : fitem :=
-  if fst p =? 0 then FU16 else if fst p =? 1 then FU32 else if fst p =? 2 then FS (N.to_nat (snd p)) else FS (env (snd p)).
-
 (* ------------------------------------------------------------------ protocol versions *)
 Definition version_ok (maj mi : N) : bool := existsb (fun p => (fst p =? maj) && (snd p =? mi)) g_versions.
 (* ProtocolVersion.from_public_key *)
@@ -138,14 +134,10 @@ Definition srk_rec_verify (r : srk_rec) : res bool :=
       let ks_ok := if (alg =? 33) || (alg =? 34) then mem_n (sr_ksid r) (map snd g_ahab1_rsa_type)
                    else if alg =? 39 then mem_n (sr_ksid r) (map snd g_ahab1_ecc_type)
                    else if alg =? 40 then sr_ksid r =? 8 else true in
-      (* "Restore public key": an SPSDK error is a warning only, a ValueError from `cryptography` (RSA numbers) escapes *)
-      match srk_rec_key r with
-      | Err 2 => Err 2
-      | _ =>
+      (* "Restore public key": SPSDK errors and ValueError (RSA numbers refused by `cryptography`) are warnings only *)
       Ok ((sr_len r =? srk_rec_size r) && mem_n alg g_srk_v1_algs && mem_n (sr_hash r) g_srk_v1_hashes && ks_ok
           && (sr_len r =? 12 + l1 + l2)
           && (nlen (firstn (N.to_nat l1) (sr_params r)) =? l1) && (nlen (skipn (N.to_nat l1) (sr_params r)) =? l2))
-      end
   end.
 (* SRKTable.verify().validate() *)
 Definition srk_table_verify (t : srk_table) : res unit :=
@@ -559,35 +551,30 @@ Definition dar_verify (c : klass) (with_uuid : bool) (r : list N) (dev_uuid chal
       let sig := skipn n r in
       Ok (d, beacon, [o1; SigVerify (d_dck d) (firstn n r ++ challenge) sig]))).
 
-(* ------------------------------------------------------------------ (T1) the layouts above are the ones in the source *)
-Definition sym_env (s : N) : nat := (1000 + N.to_nat s)%nat.
+(* ------------------------------------------------------------------ (T1) the layouts above are the ones the source computes *)
+Definition fitem_c (p : N * N) : fitem := if fst p =? 0 then FU16 else if fst p =? 1 then FU32 else FS (N.to_nat (snd p)).
+(* RSA: DebugCredentialCertificateRsa.get_data_format(version) for 1.0 and 1.1 *)
 Example rsa_fmt_from_source :
-  map (fitem_of sym_env) (g_rsa_fmt ++ g_rsa_sig_fmt) = rsa_fmt 1001 ++ [FS 1002]
-  /\ g_rsa_export_fields = rsa_order ++ [11] /\ g_rsa_tbs_fields = rsa_order /\ g_rsa_parse_fields = [0; 0] ++ skipn 2 rsa_order ++ [11].
+  map fitem_c g_rsa_fmt_0 = rsa_fmt 260 ++ [FS 256] /\ map fitem_c g_rsa_fmt_1 = rsa_fmt 516 ++ [FS 512] /\ g_rsa_exp_len = (4, 4).
 Proof. repeat split; reflexivity. Qed.
+(* ECC: get_data_format() of credentials created with n RoT keys on the curve: RoT meta = flags + n digests (n > 1) *)
+Definition ecc_inst_fmt (bits n : N) : list fitem :=
+  let cs := coord_size bits in
+  let hl := if bits =? 256 then 32%nat else if bits =? 384 then 48%nat else 64%nat in
+  (ecc_fmt (4 + (if (1 <? n)%N then N.to_nat n * hl else 0)) (2 * cs) (2 * cs) ++ [FS (2 * cs)])%nat.
 Example ecc_fmt_from_source :
-  map (fitem_of sym_env) (g_ecc_fmt ++ g_ecc_sig_fmt) = ecc_fmt 1003 1004 1005 ++ [FS 1006]
-  /\ g_ecc_export_fields = ecc_order ++ [11] /\ g_ecc_tbs_fields = ecc_order
-  /\ map (fitem_of sym_env) g_ecc_head_fmt = head_fmt /\ map (fitem_of sym_env) g_ecc_tail_fmt = [FS 1008; FS 1008; FS 1008]
-  /\ g_ecc_parse_head_fields = firstn 7 ecc_order /\ g_ecc_parse_tail_fields = [10; 6; 11].
-Proof. repeat split; reflexivity. Qed.
+  map (fun r => map fitem_c (snd r)) g_ecc_fmt_inst = map (fun r => ecc_inst_fmt (fst (fst r)) (snd (fst r))) g_ecc_fmt_inst.
+Proof. reflexivity. Qed.
+(* EdgeLock: flags + SRK table (4 + 4 x (12 + key numbers)), DCK blob, signature *)
+Definition ele_inst_fmt (bits : N) : list fitem :=
+  let rsa := 1024 <? bits in
+  let keylen := (if rsa then N.to_nat (bits / 8) + 4 else 2 * coord_size bits)%nat in
+  let dcklen := (if rsa then N.to_nat (bits / 8) + 3 else 2 * coord_size bits)%nat in  (* RSA: minimal exponent, 65537 in the pool *)
+  let siglen := (if rsa then N.to_nat (bits / 8) else 2 * coord_size bits)%nat in
+  (ele_fmt (4 + 4 + 4 * (12 + keylen)) dcklen ++ [FS siglen])%nat.
 Example ele_fmt_from_source :
-  map (fitem_of sym_env) (g_ele_fmt ++ g_ele_sig_fmt) = ele_fmt 1003 1007 ++ [FS 1006]
-  /\ g_ele_export_fields = ele_order ++ [11] /\ g_ele_tbs_fields = ele_order
-  /\ map (fitem_of sym_env) g_ele_head_fmt = head_fmt /\ map (fitem_of sym_env) g_ele_tail_fmt = [FS 1009; FS 1010]
-  /\ g_ele_parse_head_fields = firstn 7 ele_order /\ g_ele_parse_tail_fields = [6; 11].
-Proof. repeat split; reflexivity. Qed.
-Example meta_consts_from_source : g_rsa_meta = (128, 4, 32, 3) /\ g_flags = (31, 8, 4, 15, 4) /\ g_rsa_exp_len = (4, 4).
-Proof. repeat split; reflexivity. Qed.
-(* response: credential, "<L" beacon, ["<16s" uuid]; signed = common + challenge; exported = common + signature *)
-Example dar_from_source :
-  g_dar_common = [(20, (9, 0)); (21, (1, 0))] /\ g_dar_common_ecc = [(20, (9, 0)); (21, (1, 0)); (22, (2, 16))]
-  /\ g_dar_tbs = [(24, (9, 0)); (23, (9, 0))] /\ g_dar_export = [(24, (9, 0)); (25, (9, 0))].
-Proof. repeat split; reflexivity. Qed.
-Example dac_from_source :
-  map (fitem_of sym_env) g_dac_head_fmt = dac_head_fmt /\ map (fitem_of sym_env) g_dac_tail_fmt = dac_tail_fmt 1011
-  /\ g_dac_parse_head_fields = [1; 2; 3; 4; 30] /\ g_dac_parse_tail_fields = [31; 32; 33; 8; 34] /\ g_dac_hash_len = (32, 48, 64).
-Proof. repeat split; reflexivity. Qed.
+  map (fun r => map fitem_c (snd r)) g_ele_fmt_inst = map (fun r => ele_inst_fmt (fst (fst r))) g_ele_fmt_inst.
+Proof. reflexivity. Qed.
 
 (* ------------------------------------------------------------------ run_case *)
 Definition key_of_val (v : value) : option key :=
